@@ -30,7 +30,7 @@ from .common import lib_crate
 from . import session
 
 LEVEL = "other"
-FULL = 'f-hah'
+FULL = F.config_name(F.FEATURES)
 
 
 def strip_spans(x):
@@ -209,7 +209,7 @@ def run(ctx, res):
     full = hashes[FULL]
     single = {}
     for f in F.FEATURES:
-        n = 'f-' + "".join(x[0] for x in F.FEATURES if x != f)
+        n = F.config_name([x for x in F.FEATURES if x != f])
         owned = set(full) - set(hashes[n])
         added = set(hashes[n]) - set(full)
         changed = {k for k in set(full) & set(hashes[n]) if full[k] != hashes[n][k]}
